@@ -808,6 +808,18 @@ def paths_under (repo, module, g, env, start, stops, cls=None, limit=200, track=
             if k2_ != nm_ and v2_ is cur_: ne.exact.pop(k2_, None)
           if '.' in nm_: ne.exact.pop(nm_, None)
           else: _kill(ne, nm_)
+    elif track and n.kind == 'stmt' and isinstance(n.ast, ast.Delete) and len(n.ast.targets) == 1 and isinstance(n.ast.targets[0], ast.Subscript) and isinstance(n.ast.targets[0].slice, ast.Slice) \
+         and isinstance(e.exact.get(norm(n.ast.targets[0].value)), (list, bytearray)):
+      # removal of a slice from a mutable sequence of known value: `del B[:n]`
+      nm_ = norm(n.ast.targets[0].value); cur_ = e.exact[nm_]; sl_ = n.ast.targets[0].slice
+      ne = Env(dict(e.exact), list(e.matchers), getattr(e, 'call_hook', None))
+      try:
+        lo_ = None if sl_.lower is None else eval_env2(repo, module, sl_.lower, e, cls)
+        hi_ = None if sl_.upper is None else eval_env2(repo, module, sl_.upper, e, cls)
+        if lo_ is OPAQUE or hi_ is OPAQUE or sl_.step is not None: raise _Unknown()
+        c2 = type(cur_)(cur_); del c2[lo_:hi_]; ne.exact[nm_] = c2
+      except Exception:
+        ne.exact.pop(nm_, None)
     elif track and n.kind == 'stmt' and ((isinstance(n.ast, ast.Delete) and len(n.ast.targets) == 1 and isinstance(n.ast.targets[0], ast.Subscript) and not isinstance(n.ast.targets[0].slice, ast.Slice)
                                           and isinstance(e.exact.get(norm(n.ast.targets[0].value)), (dict, list)))
                                          or (isinstance(n.ast, ast.Expr) and isinstance(n.ast.value, ast.Call) and isinstance(n.ast.value.func, ast.Attribute) and n.ast.value.func.attr == 'pop'
